@@ -11,4 +11,5 @@ package xreq
 //@   lock Mutex level 20
 //@   guarded_by Mutex: closed recvQ sendQ sizeQ recvExpire sendExpire sendQLen recvQLen bestEffort
 //@   immutable: closeQ
+//@   elem_invariant recvQ: !shared(elem)
 //@
